@@ -9,7 +9,7 @@ pub fn family() -> Family {
 }
 
 fn corpus() -> Vec<&'static str> {
-    vec!["foo", "foo#bar", "(say\"hi\")", "(a#b c)", "foo ; c", "; c\nfoo", "(a ; c\n b)", "(a b . c)", "#(1 2 3)", "#u8(1 2 255)", "\"a\\x41;b\\n\"",
+    vec!["\u{feff}(a b)", "\u{feff}x", "(a \u{feff} b)", "\u{feff}", "foo", "foo#bar", "(say\"hi\")", "(a#b c)", "foo ; c", "; c\nfoo", "(a ; c\n b)", "(a b . c)", "#(1 2 3)", "#u8(1 2 255)", "\"a\\x41;b\\n\"",
          "\"line\\\n   cont\"", "#\\x41 #\\space", "12 -7 1.5e3 #xff", "#:key :k k:", "'(a `b ,c ,@d)", "[a b]", "nil t #nil #t #f", "(a . (b . (c)))",
          "\"\u{3bb}x\"", "\u{3bb}sym", "?a ?\\C-a", "\"\\u03bb\\x41\"", "(1 (2 (3 (4))))", "a\rb\x0cc", "#!fold-case x", "|a b|", "(a .b)", "(a .;c\n)", "(a .;", "(a .[b])", "(a .]", "(.;c\n a)", "(a +;c\n)", "(a -[b])", "1+ -", "(",
          "\"abc", "#\\", "#(1 2", "(a . )", ")", "#u8(300)", "1e", "#x", "a)b",
